@@ -28,6 +28,23 @@ EXPLANATION = ("add and pop_used are path-enumerated (loop-containing helpers ke
 FLOORS = {'add_paths': 6, 'pop_paths': 3, 'capacity_rows': 1000, 'counter_ops': 4}
 
 
+def counters_rule(F, R, rule):
+    """E5 under another property's rule name (the free-running indices decide whether a completion is seen at all)."""
+    M = model(F)
+    M.require_rings()
+    roles = C05.classify_api(C05.queue_api(F, M))
+    by = {}
+    for k, v in roles.items():
+        by.setdefault(v, []).append(k)
+    if 'add' not in by or 'can_pop' not in by:
+        raise Undecided('queue API roles add/can_pop not found')
+    tfield = C05.trusted_avail_field(F, M, by['add'][0])
+    lfield = last_used_field(F, M, by['can_pop'][0])
+    if lfield is None:
+        raise Undecided('cannot identify the last-used index field')
+    e5_counters(F, R, M, tfield, lfield, rule=rule)
+
+
 def run(F, R):
     M = model(F)
     M.require_rings()
@@ -308,7 +325,7 @@ def e4_accounting(F, R, M, add_id, pop_id):
             'the release path never decrements the in-use counter')
 
 
-def e5_counters(F, R, M, tfield, lfield):
+def e5_counters(F, R, M, tfield, lfield, rule='E5'):
     """H-ctr over every function of the queue type."""
     nops = 0
     for b in queue_entry_points(F, M):
@@ -346,18 +363,18 @@ def e5_counters(F, R, M, tfield, lfield):
             op = t[1]
             inst = '%s:%s' % (b['id'], op)
             if op in ('Lt', 'Le', 'Gt', 'Ge'):
-                R.violated('E5', inst, site(sg, n), 'free-running ring index is order-compared by value (wrap-unsafe): %s' % fmt(t))
+                R.violated(rule, inst, site(sg, n), 'free-running ring index is order-compared by value (wrap-unsafe): %s' % fmt(t))
             elif op in ('Add', 'Sub', 'Mul', 'AddWithOverflow', 'SubWithOverflow', 'MulWithOverflow', 'AddUnchecked', 'SubUnchecked'):
-                R.violated('E5', inst, site(sg, n), 'non-wrapping arithmetic on a free-running ring index: %s' % fmt(t))
+                R.violated(rule, inst, site(sg, n), 'non-wrapping arithmetic on a free-running ring index: %s' % fmt(t))
             else:
-                R.held('E5', inst, site(sg, n), 'index used with %s only' % op)
+                R.held(rule, inst, site(sg, n), 'index used with %s only' % op)
         for n in sg.calls():
             fn = n.d.get('fn', '')
             if fn.endswith('::wrapping_add') or fn.endswith('::wrapping_sub'):
                 args = [S.operand(n.id, a) for a in n.d['args']]
                 if any(raw_ctr(a) for a in args):
                     nops += 1
-                    R.held('E5', '%s:%s' % (b['id'], fn.rsplit('::', 1)[1]), site(sg, n), 'wrapping arithmetic on index')
+                    R.held(rule, '%s:%s' % (b['id'], fn.rsplit('::', 1)[1]), site(sg, n), 'wrapping arithmetic on index')
     R.count('counter_ops', nops)
 
 
